@@ -84,17 +84,26 @@ Proof.
   destruct (run_ok FUEL (CBoundary S) R H HS) as [Hw Hs]. split; [exact Hw|exact (Hs Hsim)].
 Qed.
 
-(* sup / inf bound every member (that they are the LEAST such bounds is not proved) *)
-Theorem sup_inf_bound_partial : forall S x, wf_set S = true ->
-    (sup S = Ok x -> upper_bound S x) /\ (inf S = Ok x -> lower_bound S x).
+(* sup / inf: the returned number bounds every member, and a finite returned number is a member or
+   the rational numbers just below (above) it are members, so that no smaller (larger) bound exists.
+   Not proved: that the set is unbounded when +-oo is returned. *)
+Theorem sup_inf_correct_partial : forall S x, wf_set S = true ->
+    (sup S = Ok x ->
+       upper_bound S x /\
+       forall v, qval x = Some v -> In_set (PAt v) S || In_set (PNear v false false) S = true) /\
+    (inf S = Ok x ->
+       lower_bound S x /\
+       forall v, qval x = Some v -> In_set (PAt v) S || In_set (PNear v true false) S = true).
 Proof.
-  intros S x HS. split; intros H p Hp.
-  - destruct (sup_bound S x HS H) as [_ Hb]. specialize (Hb p Hp).
+  intros S x HS. split; intro H; split.
+  - intros p Hp. destruct (sup_bound S x HS H) as [_ Hb]. specialize (Hb p Hp).
     rewrite cmp_np_pos. intro E. apply PosO.lt_iff in E. pord.
-  - destruct (inf_bound S x HS H) as [_ Hb]. specialize (Hb p Hp).
+  - intros v Hv. exact (sup_tight S x v HS H Hv).
+  - intros p Hp. destruct (inf_bound S x HS H) as [_ Hb]. specialize (Hb p Hp).
     rewrite cmp_np_pos. intro E. assert (ppos p <p npos x).
     { apply PosO.lt_iff. rewrite pos_cmp_antisym, E. reflexivity. }
     pord.
+  - intros v Hv. exact (inf_tight S x v HS H Hv).
 Qed.
 
 (* ------------------------------------------------------------------ the guard classes are needed *)
